@@ -1,9 +1,10 @@
 use crate::runner::Prop;
 
 pub mod c01;
+pub mod c03;
 
 pub fn all() -> Vec<Box<dyn Prop>> {
-    vec![Box::new(c01::C01 { which: 1 }), Box::new(c01::C01 { which: 2 })]
+    vec![Box::new(c01::C01 { which: 1 }), Box::new(c01::C01 { which: 2 }), Box::new(c03::C03)]
 }
 
 pub fn get(id: &str) -> Option<Box<dyn Prop>> {
